@@ -34,7 +34,10 @@ def twin(d):
             shutil.copy(os.path.join(d, "equiv.py"), os.path.join(root, "twins", "k", "equiv.py"))
             p = subprocess.run(["/venv/bin/python", "twins/k/equiv.py"], cwd=root, capture_output=True, text=True, timeout=1800,
                                env={**os.environ, "PYTHONDONTWRITEBYTECODE": "1", "MPLBACKEND": "Agg"})
-            outs.append(p.stdout + ("\n[stderr-tail] " + p.stderr[-300:] if p.returncode else ""))
+            # a script that ends in an uncaught exception (e.g. it exercises a defect that was repaired since it was written): the exception
+            # type and message count, the traceback's source lines (which differ between the views by construction) do not
+            last = [l for l in p.stderr.strip().splitlines() if l and not l.startswith(" ")][-2:] if p.returncode else []
+            outs.append(p.stdout + ("\n[uncaught] " + " | ".join(last) if p.returncode else ""))
         same = outs[0] == outs[1] and outs[0].strip() != ""
         return d, "same" if same else "DIFFERENT", f"{n} transformations, {len(outs[0].splitlines())} digest lines" + ("" if same else f"\n--- patched\n{outs[0][-600:]}\n--- second view\n{outs[1][-600:]}")
     except Exception as e:  # noqa
